@@ -62,6 +62,11 @@ def jdumps(o, **kw):
     return json.dumps(o, default=jdefault, sort_keys=True, **kw)
 
 
+def jsame(a, b):
+    """equality after a JSON round trip (replay files turn tuples into lists)"""
+    return jdumps(a) == jdumps(b)
+
+
 def case_key(case):
     return hashlib.sha1(jdumps(case).encode()).hexdigest()[:16]
 
@@ -183,6 +188,8 @@ def _run_one(args):
     import numpy as np
 
     np.seterr(all="ignore")
+    if getattr(_MOD, "ISOLATE_SHARDS", False) and not os.environ.get("VERIF_COVERAGE"):
+        return _run_one_isolated(idx, shard)
     try:
         r = _MOD.run_shard(shard)
         if not isinstance(r, Result):
@@ -190,6 +197,35 @@ def _run_one(args):
         return idx, r, None
     except Exception:
         return idx, None, traceback.format_exc()
+
+
+def _run_one_isolated(idx, shard):
+    """K2 histories over module-level state: every shard is a complete history and runs in a child forked
+    from a worker that never executes library code itself, so that it starts from the import-time state
+    (caches, module globals) - exactly the state a fresh replay process starts from"""
+    ctx = mp.get_context("fork")
+    parent, child = ctx.Pipe(duplex=False)
+
+    def target():
+        try:
+            r = _MOD.run_shard(shard)
+            if not isinstance(r, Result):
+                raise HarnessError("run_shard did not return a Result")
+            child.send((idx, r, None))
+        except Exception:
+            child.send((idx, None, traceback.format_exc()))
+        finally:
+            child.close()
+
+    p = ctx.Process(target=target)
+    p.start()
+    child.close()
+    try:
+        out = parent.recv()
+    except EOFError:
+        out = (idx, None, "isolated shard process died (exit code %s)" % p.exitcode)
+    p.join()
+    return out
 
 
 def _cov_start():
